@@ -603,3 +603,25 @@ Proof.
   cbv zeta. split; auto. apply crossing_or_spec.
 Qed.
 End AsnSpec.
+
+(* ===================================================================================================== C05 discharges the hypothesis *)
+(* every shipped test is non-anticipating: this is C05_tail (NNM_prefix.hist_tail_all), no range hypotheses *)
+From SV Require NNM_prefix.
+Lemma shipped_nonanticipating : forall sqrtq c, nonanticipating (hist sqrtq c).
+Proof. intros sqrtq c k xs ys E H1 H2. exact (NNM_prefix.hist_tail_all sqrtq c xs ys k E H1 H2). Qed.
+
+Lemma prefix_invariant_shipped :
+  forall (sqrtq : Q -> Q) (draws : nat -> list Q) (quantile : Q -> list nat -> nat),
+  (forall q k n, 0 <= q <= 1 -> quantile q (repeat k (S n)) = k) ->
+  forall (c : cfg) (alpha : Q) (x : list Q) (reps : nat) (q : Q) (n : Z) (k : nat),
+  cN c = Some n ->
+  (1 <= reps)%nat -> 0 <= q <= 1 ->
+  ((first_crossing alpha 0 (hist sqrtq c x) = Some k /\ (k < length x)%nat)
+   \/ (exists d0, d0 <> [] /\ (forall r, (r < reps)%nat -> draws r <> []) /\
+                  first_crossing alpha 0 (firstn (length x) (hist sqrtq c (x ++ d0))) = Some k)) ->
+  (forall r, (r < reps)%nat -> sim_one sqrtq draws c alpha (Z.to_nat n) true x r = k) /\
+  ss_sim sqrtq draws quantile c alpha x reps true q = Ok k.
+Proof.
+  intros sqrtq draws quantile Hq c alpha x reps q n k Hn Hr Hq01 Hc.
+  exact (prefix_invariant sqrtq draws quantile Hq c alpha x reps q n k Hn (shipped_nonanticipating sqrtq c) Hr Hq01 Hc).
+Qed.
